@@ -21,7 +21,7 @@ RULE = ("a case is a schema over all persistent families (containers of encoded 
         "modulo the two stated normalisations, and the default key file must stay untouched; out-of-domain (state, "
         "format) pairs are skipped and counted; non-trivial = state with >= 3 set values reloaded in >= 2 formats; "
         "distinct = distinct (schema, state)")
-REQUIRED = ("dynamic_fields_with_dotted_names", "roundtrips_after_key_rotation", "schema_key_equals_root_tag", "nested_encoded_containers", "roundtrips:json", "roundtrips:yaml", "roundtrips:bson", "roundtrips:xml", "roundtrips:pickle",
+REQUIRED = ("second_loads_after_in_place_changes", "documents_with_related_strings", "dynamic_fields_with_dotted_names", "roundtrips_after_key_rotation", "schema_key_equals_root_tag", "nested_encoded_containers", "roundtrips:json", "roundtrips:yaml", "roundtrips:bson", "roundtrips:xml", "roundtrips:pickle",
             "tree_plainness_checks", "virtual_key_checks", "states_validated", "list_of_config_states",
             "encoded_item_containers")
 ASSUMPTIONS = ["equality is judged on the plain image of the configurations (values at every depth), not on object identity",
@@ -83,6 +83,25 @@ def generate(rng, ctx):
             "rotate": rng.randrange(1, 1 << 20) if rng.random() < 0.5 else 0}
 
 
+RELATED_STRINGS = [
+    ("C:\\ProgramData\\app\\logs\\", "^[a-z0-9_,]+$"), ("ends with a backslash\\", "{a, b, }"), ("say \\\"", "x,]"), ("/* open", "close */ , }"),
+    ("<!-- open", "close --> &amp;"), ("<![CDATA[", "]]> tail"), ("'" * 3, "'" * 3 + " # not a comment"), ("${HOME", "}"), ("- a\n- b", "k: v"),
+    ("line one\\", "line two"), ("%(name", ")s"), ("{{", "}}"),
+]
+
+
+def directed(ctx):
+    """Pairs of strings that only confuse a text pre-/post-processor when both occur in one document."""
+    schema = {"kind": "schema", "key": "", "fields": [
+        {"kind": "field", "key": "first", "family": "str", "params": {}}, {"kind": "field", "key": "second", "family": "str", "params": {}},
+        {"kind": "field", "key": "both", "family": "list", "params": {}, "item": None},
+        {"kind": "schema", "key": "sec", "fields": [{"kind": "field", "key": "again", "family": "str", "params": {}}]}]}
+    for a, b in RELATED_STRINGS:
+        for x, y in ((a, b), (b, a)):
+            yield {"schema": schema, "fmt": "json", "tree": {"first": x, "second": y, "both": [x, y, {"k": x}], "sec": {"again": y}},
+                   "ops": [], "dyn": {}, "rotate": 0, "related": True}
+
+
 def probes(ctx):
     # K6: a typed dict with a non-string key field puts non-string keys into the tree
     schema = {"kind": "schema", "key": "", "fields": [
@@ -140,6 +159,8 @@ def run(case, ctx, res):
         res.count("state_valid_for_library_but_not_for_model_skipped")
         return
     res.count("states_validated")
+    if case.get("related"):
+        res.count("documents_with_related_strings")
     if any(isinstance(state.get(k), dict) and state.get(k) for k in ("config", "cfg", "k0")):
         res.count("schema_key_equals_root_tag")
     if _has_list_of_cfg(root, state):
@@ -208,6 +229,32 @@ def run(case, ctx, res):
                 fam = _family_of(root, diff[0].split(":")[0])
                 res.viol("M-roundtrip", "differs:%s:%s" % (fmt, fam), "%s: re-loaded configuration differs: %s" % (label, "; ".join(diff[:3])))
                 return
+            if not opts:
+                # what the first re-load got is changed in place (untyped lists / maps are held as decoded); a second
+                # load of the same bytes into another configuration must still reproduce the saved state
+                from .c13 import _containers
+
+                conts = []
+                _containers(cc, fresh, "", conts)
+                raw = [c for _p, c in conts if type(c) in (list, dict)]
+                if raw:
+                    for c in raw:
+                        if isinstance(c, list):
+                            c.append("__changed__")
+                        else:
+                            c["__changed__"] = 1
+                    again = cc.Config(drv.built.schema, key_filename=drv.keyfile)
+                    try:
+                        again.loads(blob, fmt)
+                    except Exception as exc:
+                        res.viol("M-roundtrip", "raises:%s:second-load" % fmt, "%s: loading the same document a second time raised %r" % (label, exc))
+                        return
+                    res.count("second_loads_after_in_place_changes")
+                    diff = roundtrip.diff_states(root, state, plain(again))
+                    if diff:
+                        res.viol("M-roundtrip", "differs:%s:second-load" % fmt, "%s: the same document loaded again after the first result was "
+                                 "changed in place differs from the saved state: %s" % (label, "; ".join(diff[:3])))
+                        return
             touched = [e for e in log.events if e[1] == ctx.sb.default_keyfile]
             if touched:
                 res.viol("M-files", "default-keyfile-touched", "%s: the default key file was %s although the configuration names %s" % (
